@@ -218,6 +218,8 @@ def make_optimizer(spec, faults=()):
         )
     elif k == "momentum":
         opt = optax.sgd(lr, momentum=0.9)
+    elif k == "zero_nans_sgd":
+        opt = optax.chain(optax.zero_nans(), optax.sgd(lr))  # a NaN-filtering optimizer: NaN gradients become zero updates
     else:
         raise HarnessError(f"optimizer {k}")
     pre = [f for f in faults if f["origin"] == "grad"]
@@ -770,6 +772,8 @@ def gen_rar_program(rng, r, tier, float_mode="x64"):
     prog["net"] = {"key": rng.randrange(2**31), "hidden": [rng.randint(3, 4)]}
     prog["eq_params"] = {"a": round(rng.uniform(0.5, 1.5), 3), "b": round(rng.uniform(0.5, 1.5), 3)}
     prog["form"] = 0
+    if eq != "sysode" and rng.random() < 0.2:
+        prog["hetero"] = True  # parameter a depends on the point: the residual that ranks the candidates must use it
     prog["terms"] = {"ic": rng.random() < 0.5, "bc": None, "norm": False}
     prog["weights"] = {}
     prog["dkeys"] = "default"
